@@ -125,12 +125,61 @@ def parse_number_layout(s, culture):
     return Decimal(s.replace(T, '').replace(Dm, '.'))
 
 
+# ---- sequence entities (C13): well-formed e-mail addresses, URLs with a listed TLD, hashtags, mentions, phone numbers -------------
+def seq_layouts(kind):
+    lo, al = z3.Range('a', 'z'), z3.Union(z3.Range('a', 'z'), z3.Range('0', '9'))
+    AL = z3.Union(al, z3.Range('A', 'Z'))
+    word = z3.Loop(al, 1, 8)
+    if kind == 'email':
+        local = z3.Concat(word, z3.Star(z3.Concat(alt(['.', '_', '+', '-']), word)))
+        label = z3.Concat(word, z3.Star(z3.Concat(lit('-'), word)))
+        domain = z3.Concat(label, z3.Star(z3.Concat(lit('.'), label)))
+        return {'address': z3.Concat(local, lit('@'), domain, lit('.'), z3.Loop(lo, 2, 6))}
+    if kind == 'hashtag':
+        return {'tag': z3.Concat(lit('#'), z3.Loop(z3.Union(AL, lit('_')), 1, 12))}
+    if kind == 'mention':
+        return {'user': z3.Concat(lit('@'), z3.Loop(z3.Union(AL, lit('_')), 1, 12))}
+    if kind == 'url':
+        label = z3.Concat(al, z3.Loop(z3.Union(al, lit('-')), 0, 6), al)
+        host = z3.Concat(z3.Star(z3.Concat(label, lit('.'))), label, lit('.'), alt(['com', 'org', 'net', 'io', 'co.uk']))
+        path = z3.Star(z3.Concat(lit('/'), z3.Loop(z3.Union(al, alt(['-', '_', '.'])), 1, 8)))
+        return {'scheme-host-path': z3.Concat(alt(['http://', 'https://', 'ftp://']), host, path),
+                'www-host': z3.Concat(lit('www.'), host, path),
+                'bare-host': z3.Concat(label, lit('.'), alt(['com', 'org', 'net']))}
+    if kind == 'phone':
+        d3, d4 = z3.Concat(D, D, D), z3.Concat(D, D, D, D)
+        a3 = z3.Concat(z3.Range('2', '9'), D, D)
+        return {'us-dashed': z3.Concat(a3, lit('-'), a3, lit('-'), d4), 'us-paren': z3.Concat(lit('('), a3, lit(') '), a3, lit('-'), d4),
+                'us-plus1': z3.Concat(lit('+1 '), a3, lit(' '), a3, lit(' '), d4), 'seven': z3.Concat(a3, lit('-'), d4)}
+    raise KeyError(kind)
+
+
+SEQ_KINDS = ('email', 'hashtag', 'mention', 'url', 'phone')
+
+
+def _seq_extractor(kind):
+    import recognizers_sequence.sequence.english.extractors as X
+    from recognizers_sequence.sequence.extractors import BaseURLExtractor, BasePhoneNumberExtractor
+    env.assert_repo(X)
+    if kind == 'email':
+        return X.EnglishEmailExtractor()
+    if kind == 'hashtag':
+        return X.EnglishHashtagExtractor()
+    if kind == 'mention':
+        return X.EnglishMentionExtractor()
+    if kind == 'url':
+        return BaseURLExtractor(X.EnglishURLExtractorConfiguration(None))
+    return BasePhoneNumberExtractor(X.EnglishPhoneNumberExtractorConfiguration(None))
+
+
 # ---- the real patterns ------------------------------------------------------------------------------------------------------------------
 LANGMOD = {'en': 'english', 'es': 'spanish', 'fr': 'french', 'pt': 'portuguese', 'de': 'german', 'it': 'italian', 'nl': 'dutch'}
 
 
 def real_patterns(kind, culture):
     import importlib
+    if kind in SEQ_KINDS:
+        return [rv.re.pattern if hasattr(rv.re, 'pattern') else rv.re for rv in _seq_extractor(kind).regexes]
     lang = LANGMOD[culture.split('-')[0]]
     if kind == 'date':
         m = importlib.import_module('recognizers_date_time.date_time.%s.date_extractor_config' % lang)
@@ -153,6 +202,8 @@ def real_patterns(kind, culture):
 
 
 def layouts_of(kind, culture):
+    if kind in SEQ_KINDS:
+        return seq_layouts(kind)
     return {'date': lambda: date_layouts(culture), 'time': time_layouts, 'number': lambda: number_layouts(culture)}[kind]()
 
 
@@ -181,6 +232,10 @@ def inclusion(slice_, timeout):
 
 
 def _api(kind, culture, s):
+    if kind in SEQ_KINDS:
+        import recognizers_sequence as rs_
+        f = {'email': rs_.recognize_email, 'hashtag': rs_.recognize_hashtag, 'mention': rs_.recognize_mention, 'url': rs_.recognize_url, 'phone': rs_.recognize_phone_number}[kind]
+        return f(s, culture)
     if kind == 'number':
         from recognizers_number import recognize_number
         return recognize_number(s, culture)
@@ -194,6 +249,9 @@ def _api_ok(kind, culture, name, s):
     if len(rs) != 1 or rs[0].start != 0 or rs[0].end != len(s) - 1:
         return False, [(r.text, r.start, r.end) for r in rs]
     res = rs[0].resolution
+    if kind in SEQ_KINDS:
+        # value equal to the entity text, which is the query text up to the documented lower-casing
+        return (res or {}).get('value') == rs[0].text and rs[0].text.lower() == s.lower(), res
     if kind == 'number':
         T, Dm = NUM_MARKS[culture]
         got = Decimal(res['value'].replace(Dm, '.')) if res and res.get('value') is not None else None
